@@ -206,10 +206,10 @@ func genScenario(seed uint64, nBatches, maxIns int) Scenario {
 	for b := 0; b < nBatches; b++ {
 		kind := "ins"
 		if b >= 2 && len(live) >= 4 {
-			switch x := r.Intn(10); {
-			case x < 4:
-				kind = "ins"
+			switch x := r.Intn(20); {
 			case x < 7:
+				kind = "ins"
+			case x < 14:
 				kind = "upd"
 			default:
 				kind = "del"
